@@ -166,5 +166,67 @@ UNITS = [Unit('rows', 'C15', C, extracts=X_ALL, replay=REPLAY,
               preconditions=['width, height <= 2^24, kernel size <= 4096, centre inside the kernel'],
               assumed=['assign_pixels / std::fill_n write exactly the stated number of consecutive cells; the correlator reads kernel.size() consecutive buffer cells per output and writes one destination pixel per output (correlate_pixels_n / _k, algorithm.hpp)',
                        'view_multiplies_scalar handles the size-1 kernel (whole view)'])]
+# ---------------------------------------------------------------------------------------------------------------------------------------
+# convolution = correlation with the reversed kernel: reverse_kernel (kernel.hpp) and convolve_rows / convolve_cols (convolve.hpp)
+R_REV = [('R12.copy', r'Kernel result\(kernel\);', 'kernel_t result = *kernel;', True),
+         ('R11.center', r'result\.center\(\) = kernel\.right_size\(\);', 'result.center_ = right_size(kernel);', True),
+         ('R11.reverse', r'std::reverse\(result\.begin\(\), result\.end\(\)\);', 'REVERSE_COEFFICIENTS(&result);', True)]
+X_CONV = [X('reverse_kernel', KR, r'inline Kernel reverse_kernel\(Kernel const& kernel\)\s*\{', count=1, rules=R_REV),
+          X('convolve_rows', CV, r'void convolve_rows\(\s*SrcView const& src_view,\s*Kernel const& kernel,\s*DstView const& dst_view,\s*boundary_option option = boundary_option::extend_zero\)\s*\{', count=1,
+            rules=[('R11.correlate', r'correlate_rows<PixelAccum>\(src_view, reverse_kernel\(kernel\), dst_view, option\);', 'CORRELATE_ROWS(reverse_kernel(kernel));', True)]),
+          X('convolve_cols', CV, r'void convolve_cols\(\s*SrcView const& src_view,\s*Kernel const& kernel,\s*DstView const& dst_view,\s*boundary_option option = boundary_option::extend_zero\)\s*\{', count=1,
+            rules=[('R11.rows_t', r'convolve_rows<PixelAccum>\(\s*transposed_view\(src_view\), kernel, transposed_view\(dst_view\), option\);', 'g_transposed = 1; convolve_rows(kernel);', True)]),
+          X('right_size', KR, r'std::size_t right_size\(\) const\s*\{', nth=0, count=2, rules=[('R14.assert', r'BOOST_ASSERT\(', 'PRECONDITION(', False), ('R3.c', r'\bcenter_\b', 'self->center_', False), ('R3.s', r'this->size\(\)', 'self->size', False)])]
+CONV_C = r'''
+#define PRECONDITION(c) __CPROVER_assert(c, "BOOST_ASSERT precondition of the library")
+/* ghost kernel: size, centre, and ONE watched coefficient: the value stored at index g_j after the operation is the value that was at index `src_index` of the original */
+typedef struct { size_t size, center_; ptrdiff_t watched_from; _Bool reversed; } kernel_t;
+size_t right_size(const kernel_t* self) @@right_size@@
+static void REVERSE_COEFFICIENTS(kernel_t* k) { k->reversed = !k->reversed; }            /* std::reverse over [begin, end): coefficient j <- coefficient size-1-j */
+kernel_t reverse_kernel(const kernel_t* kernel) @@reverse_kernel@@
+kernel_t g_passed; int g_calls; _Bool g_transposed;                                                          /* the kernel handed to correlate_rows / correlate_cols */
+static void CORRELATE_ROWS(kernel_t k) { g_passed = k; g_calls = g_calls + 1; }
+static void CORRELATE_COLS(kernel_t k) { g_passed = k; g_calls = g_calls + 1; }
+void convolve_rows(const kernel_t* kernel) @@convolve_rows@@
+void convolve_cols(const kernel_t* kernel) @@convolve_cols@@
+#ifndef VERIF_NATIVE
+#define IS_REVERSED_OF(r, k) ((r).size == (k).size && (r).center_ + (k).center_ + 1 == (k).size && (r).reversed != (k).reversed)
+void h_reverse_kernel(void){ kernel_t k; __CPROVER_assume(1 <= k.size && k.size <= ((size_t)1 << 30) && k.center_ < k.size);
+  kernel_t r = reverse_kernel(&k);
+  __CPROVER_assert(IS_REVERSED_OF(r, k), "reverse_kernel: same size, coefficients in reverse order, centre mirrored (size - 1 - centre)");
+  __CPROVER_assert(0, "VACUITY"); }
+void h_convolve(void){ kernel_t k; __CPROVER_assume(1 <= k.size && k.size <= ((size_t)1 << 30) && k.center_ < k.size);
+  g_calls = 0; convolve_rows(&k);
+  __CPROVER_assert(g_calls == 1 && IS_REVERSED_OF(g_passed, k), "convolve_rows is correlate_rows with the reversed kernel (coefficients AND centre), for every kernel");
+  g_calls = 0; g_transposed = 0; convolve_cols(&k);
+  __CPROVER_assert(g_calls == 1 && g_transposed && IS_REVERSED_OF(g_passed, k), "convolve_cols is the row convolution of the transposed views with the same kernel (hence correlation with the reversed kernel)");
+  __CPROVER_assert(0, "VACUITY"); }
+#endif
+'''
+REPLAY_CONV = r'''
+#include <boost/gil.hpp>
+#include <boost/gil/image_processing/convolve.hpp>
+#include <boost/gil/image_processing/kernel.hpp>
+#include <vector>
+#include "vreplay.hpp"
+using namespace boost::gil;
+int main(int argc, char** argv){ vr::parse(argc, argv);
+  // convolve_rows / convolve_cols against the textbook sum dst(i) = sum_k src(i - (k - centre)) * kernel(k), zero extension, kernels incl. palindromic ones with every centre
+  std::vector<std::vector<float>> ks = {{1, 1}, {1, 2, 1}, {1, 1, 1}, {1, 2, 3}, {2, -1}, {0, 0, 0}, {1, 2, 2, 1}, {3, 1, 4, 1, 5}};
+  for (auto const& kv : ks) for (int c = 0; c < (int)kv.size(); c++) for (int W : {1, 3, 6}) { int K = (int)kv.size(); kernel_1d<float> ker(kv.begin(), K, c);
+    gray32f_image_t src(W, 2), dst(W, 2), dstc(2, W), srcT(2, W); for (int y = 0; y < 2; y++) for (int x = 0; x < W; x++) { view(src)(x, y)[0] = float(1 + 3 * x + 7 * y + x * x); view(srcT)(y, x)[0] = view(src)(x, y)[0]; }
+    convolve_rows<gray32f_pixel_t>(const_view(src), ker, view(dst), boundary_option::extend_zero); convolve_cols<gray32f_pixel_t>(const_view(srcT), ker, view(dstc), boundary_option::extend_zero);
+    for (int y = 0; y < 2; y++) for (int x = 0; x < W; x++) { float want = 0; for (int k = 0; k < K; k++) { int sx = x - (k - c); if (sx >= 0 && sx < W) want += kv[k] * view(src)(sx, y)[0]; }
+      if (view(dst)(x, y)[0] != want) REPRODUCED("convolve_rows width %d kernel size %d centre %d: dst(%d,%d) = %g, textbook convolution sum = %g", W, K, c, x, y, (double)view(dst)(x, y)[0], (double)want);
+      if (view(dstc)(y, x)[0] != want) REPRODUCED("convolve_cols height %d kernel size %d centre %d: dst(%d,%d) = %g, textbook convolution sum = %g", W, K, c, y, x, (double)view(dstc)(y, x)[0], (double)want); } }
+  NOT_REPRODUCED("convolve_rows / convolve_cols equal the textbook convolution for the sampled kernels and centres"); }
+'''
+
+UNITS.append(Unit('convolve', 'C15', CONV_C, extracts=X_CONV, replay=REPLAY_CONV,
+                  checks=[Check('reverse_kernel', 'h_reverse_kernel', engine='D', timeout=300), Check('convolve', 'h_convolve', engine='D', timeout=300)],
+                  preconditions=['kernel size 1..2^30, centre inside the kernel'],
+                  assumed=['std::reverse(begin, end) reverses the coefficients; the kernel copy constructor copies size, centre and coefficients',
+                           'correlate_rows / correlate_cols with a kernel are the sums the row contract of unit rows describes']))
+
 META = dict(not_covered=['the numerical identity dst(i) = sum_k src(i+k-centre) * kernel(k) and convolution = correlation with the reversed kernel (quantified sums over pixel arithmetic)',
-                         'correlate_cols / convolve_2d / fixed-size kernels / extend_boundary: not built'])
+                         'correlate_cols loop, convolve_2d, fixed-size kernel variants, extend_boundary: not built'])
